@@ -23,7 +23,7 @@ func registerC04() {
 			"every 29th position, thorough = all 2^15 patterns at every position; Decode and CheckIntegrity must both return an error. Family headers: header sizes x protocol " +
 			"versions x profile versions x stored CRC {correct, 0, each single-bit error, PRNG} and every single-byte corruption of bytes 1-3, 8-13 of a correct 14-byte header, " +
 			"each inside an otherwise valid file with recomputed file CRC: CheckIntegrity(headerOnly), DecodeHeader, Decode and Header.CheckIntegrity must all agree with the " +
-			"reference verdict. Family accepted: streams Decode accepts (model, device, Encode output) must pass CheckIntegrity. A case is one corrupted file; distinct by construction",
+			"reference verdict. Family accepted: streams Decode accepts (model, device, Encode output, and model streams padded to data sizes at and around multiples of the 4096-byte read buffer) must pass CheckIntegrity. A case is one corrupted file; distinct by construction",
 		Assume:        []string{"'contiguous bits' are contiguous in the order the reflected CRC consumes them (LSB first); any error counts as detection"},
 		MinNontrivial: 20000,
 		Families: []lib.Family{
@@ -314,7 +314,20 @@ func c04HeaderBytes(c *lib.Ctx, idx uint64) {
 func c04Accepted(c *lib.Ctx, idx uint64) {
 	rng := lib.NewRand("C04.accepted", idx)
 	var b []byte
-	switch idx % 3 {
+	switch idx % 4 {
+	case 3:
+		// data sizes at and around multiples of the decoder's 4096-byte buffer
+		p := c07Plan(rng, idx)
+		k := 1 + int(idx/4)%4
+		target := 4096*k + []int{0, 0, -1, 1, 0, 2}[int(idx/16)%6]
+		if k == 4 {
+			target = 4096 * []int{5, 8, 10, 16}[int(idx/16)%4]
+		}
+		if !lib.PadPlanToDataSize(p, rng, target) {
+			return
+		}
+		b = p.Bytes()
+		c.Count(fmt.Sprintf("data_size_mod_4096_is_%d", target%4096), 1)
 	case 0:
 		b = c07Plan(rng, idx).Bytes()
 	case 1:
@@ -329,7 +342,7 @@ func c04Accepted(c *lib.Ctx, idx uint64) {
 		b = out
 	default:
 		files := Corpus()
-		cf := files[int(idx/3)%len(files)]
+		cf := files[int(idx/4)%len(files)]
 		if len(cf.Data) > 400000 && idx > 300 {
 			return
 		}
